@@ -3,21 +3,21 @@ CONSTANTS
   Matching = "identity"
   MinRows = 1
   MaxRows = 3
-  MaxOutside = 2
+  MaxOutside = 1
   L1 = {"a", "k", "z"}
   L2 = {"p", "q"}
-  FESeqs <- FE_all
+  FESeqs <- FE_q
   FeatSeqs <- FT_x
   SepSeqs <- SEP_none
   StateSet = {"S1"}
   CenterSet = {FALSE}
   NoInterceptToo = FALSE
-  Callers = {"pred", "interval"}
-  SelMode = "some"
+  Callers = {"pred"}
+  SelMode = "few"
   WithNA = TRUE
   ExtraSet <- EX_none
-  Export = FALSE
-  SampleMod = 1
+  Export = TRUE
+  SampleMod = 2
 INVARIANT NoRaise
 INVARIANT DisciplineHolds
 INVARIANT SameColumns
@@ -28,4 +28,5 @@ INVARIANT UnseenLevel
 INVARIANT Centered
 INVARIANT OtherPooled
 INVARIANT StateCopiesOnlyReporting
+CONSTRAINT ExportDone
 CHECK_DEADLOCK FALSE
